@@ -1348,6 +1348,21 @@ def _opt_take(ex, st, fr, callee, args, dty):
     return [(st, v)]
 
 
+def _opt_replace(ex, st, fr, callee, args, dty):
+    """Option::replace(&mut self, v) -> old: self becomes Some(v)"""
+    a = args[0]
+    if isinstance(a, Sym) and re.match(r"^(&|\*)", a.ty or ""):
+        a = Ref(ex.pointee(a))
+    if not isinstance(a, Ref):
+        return None
+    v = ex.read(st, a.obj, a.path, None)
+    if not isinstance(v, Enum):
+        return None
+    ex.write(st, a.obj, a.path, _mk(ex, v.ty, "Option", "Some", [args[1]]))
+    ex.event(st, "opt_replace", short_ty(v.ty), [a, args[1]], v)
+    return [(st, v)]
+
+
 def _opt_get_or_insert(ex, st, fr, callee, args, dty):
     """Option::get_or_insert(&mut self, v): None => Some(v); Some(_) => unchanged (v dropped)"""
     a = args[0]
@@ -1557,6 +1572,7 @@ HANDLERS = [
     (r"^<.* as FromResidual<.*>>::from_residual$", _from_residual),
     (r"^Option::<.*>::take$", _opt_take),
     (r"^Option::<.*>::get_or_insert$", _opt_get_or_insert),
+    (r"^Option::<.*>::replace$", _opt_replace),
     (r"^(Option|Result|std::result::Result|std::option::Option)::<.*>::(is_some|is_none|is_ok|is_err|ok|err|unwrap|expect|unwrap_or|unwrap_or_default|ok_or|or|as_ref|as_mut|map|map_err|and_then|unwrap_or_else|map_or|or_else|is_some_and|inspect|filter)(::<.*>)?$", _opt_res_simple),
     (r"^std::mem::take::<.*>$", _mem_take),
     (r"^std::mem::replace::<.*>$", _mem_replace),
